@@ -381,7 +381,7 @@ def isPrefix : Bytes → Bytes → Bool
 (H1), a proper prefix of a complete pickle raises EOFError (H2), anything else is outside the idealisation
 (`other`) -/
 def tableLoad {α : Type} : List (Bytes × α) → Bytes → Except LoadErr α
-  | [], _ => .error .other
+  | [], file => if file.isEmpty then .error .eof else .error .other   -- H0: the empty file raises EOFError
   | (d, x) :: t, file =>
     if isPrefix d file then .ok x
     else match tableLoad t file with
